@@ -163,4 +163,7 @@ Example c05_nonvacuous_history :
   /\ batch_heap ls = batch_gfx ls
   /\ stream_from false reader0 ls = [[]; []; []; []; [([1], mkGfx 0 8 8 false 0 0 [65; 65; 65; 66; 66; 66])]; []; []]
   /\ safe_b (map classify ls) (to_ds (batch_gfx ls)) = true.
-Proof. cbv zeta. repeat split; vm_compute; reflexivity. Qed.
+Proof.
+  cbv zeta. split; [vm_compute; reflexivity|]. split; [vm_compute; reflexivity|].
+  split; vm_compute; reflexivity.
+Qed.
